@@ -117,6 +117,34 @@ def run(full=False):
         bad = os.path.join(ctx.scratch, "lk-bad.ndjson")
         mutate_trace(grp["file"], bad, bump_dist)
         expect_reject(ctx, "TraceLinkage: one recorded merge distance changed", lcfg, "trace/TraceLinkage.tla", bad, results)
+        # --- TraceJax: recorded loads of random file sets are accepted; a changed loaded fact or a changed file line is rejected
+        jtf = os.path.join(ctx.scratch, "jx")
+        js = hv(ctx, "record-jax", prop="C09", trace=jtf, runs=12, chunks=1)
+        jfile = js["extra"]["files"][0]["file"]
+        ok, _ = tlc_trace(ctx, "trace/TraceJax.cfg", "trace/TraceJax.tla", jfile)
+        results.append(("unmodified recorded loads of random JAX file sets accepted (TraceJax)", ok))
+
+        def drop_fact(recs):
+            for r in recs:
+                for k in ("omim", "gene", "orpha"):
+                    if r["loaded"][k]:
+                        r["loaded"][k][0]["terms"] = [118, 9999998]
+                        return
+        bad = os.path.join(ctx.scratch, "jx-bad1.ndjson")
+        mutate_trace(jfile, bad, drop_fact)
+        expect_reject(ctx, "TraceJax: the direct terms of one loaded record changed", "trace/TraceJax.cfg", "trace/TraceJax.tla", bad, results)
+
+        def not_row(recs):
+            for r in recs:
+                rows = [it for it in r["files"]["hpoa"] if it.get("kind") == "row" and it.get("qual") == "" and it.get("db") in ("OMIM", "ORPHA")]
+                for it in rows:
+                    # a fact stated by exactly one row (the generator repeats some rows)
+                    if sum(1 for o in rows if (o["db"], o["x"], o["t"]) == (it["db"], it["x"], it["t"])) == 1:
+                        it["qual"] = "NOT"
+                        return
+        bad = os.path.join(ctx.scratch, "jx-bad2.ndjson")
+        mutate_trace(jfile, bad, not_row)
+        expect_reject(ctx, "TraceJax: one annotation row of the file set turned into a NOT row", "trace/TraceJax.cfg", "trace/TraceJax.tla", bad, results)
         # --- the design-level invariants have teeth: mutated SPECIFICATIONS must be refuted by TLC
         import shutil, re as _re
         specmut = [
@@ -134,7 +162,8 @@ def run(full=False):
              "mc/MC_Refine3q.cfg", "mc/MC_Refine.tla", "refinement: a connect machine that forgets the direct parents does not refine HpoCore!ConnectAll"),
             ("HpoAlgo.tla", "Put(@, lcur.x, [name |-> nfact + 1, hpos |-> lcur.hpos])", "Put(@, lcur.x, [name |-> nfact + 1, hpos |-> lcur.hpos \\ {Max(lcur.hpos \\cup {0})}])",
              "mc/MC_Refine3q.cfg", "mc/MC_Refine.tla", "refinement: a binary loader that drops a direct term of the record does not refine HpoCore!LoadRecord"),
-            ("HpoLinkage.tla", "MinPairs(act, d) == {p \\in Pairs(act) : \\A q \\in Pairs(act) : d[p] <= d[q]}", "MinPairs(act, d) == {p \\in Pairs(act) : \\A q \\in Pairs(act) : d[p] >= d[q]}",
+            ("HpoLinkage.tla", ("MinPairs(act, d) == {p \\in Pairs(act) : \\A q \\in Pairs(act) : d[p] <= d[q]}", "/\\ \\A q \\in Pairs(active) : dist[p] <= dist[q]"),
+                               ("MinPairs(act, d) == {p \\in Pairs(act) : \\A q \\in Pairs(act) : d[p] >= d[q]}", "/\\ \\A q \\in Pairs(active) : dist[p] >= dist[q]"),
              "mc/MC_Linkage_single.cfg", "mc/MC_Linkage.tla", "linkage machine: the farthest pair is merged first (Monotone must fail)"),
             ("HpoSetMachine.tla", "[] op.name = \"child_nodes\"                               -> {t \\in S : ~\\E u \\in S : t \\in AncTab[u]}", "[] op.name = \"child_nodes\"                               -> {t \\in S : ~\\E u \\in S : u \\in AncTab[t]}",
              "mc/MC_SetMachine1.cfg", "mc/MC_SetMachine.tla", "set machine: child_nodes keeps the ancestors instead (AggregateLaws must fail)"),
@@ -146,10 +175,13 @@ def run(full=False):
             shutil.rmtree(d, ignore_errors=True)
             shutil.copytree(hvlib.SPEC, d, ignore=shutil.ignore_patterns(".tlacache", "states"))
             src = open(os.path.join(d, fname)).read()
-            if old_ not in src:
+            olds, news = (old_, new_) if isinstance(old_, tuple) else ((old_,), (new_,))
+            if any(o not in src for o in olds):
                 results.append((f"spec mutant applies: {what}", False))
                 continue
-            open(os.path.join(d, fname), "w").write(src.replace(old_, new_))
+            for o, n in zip(olds, news):
+                src = src.replace(o, n)
+            open(os.path.join(d, fname), "w").write(src)
             r = subprocess.run(["java", "-Xss1g", "-XX:+UseParallelGC", "-Djava.io.tmpdir=" + ctx.scratch, "-cp", hvlib.TLA_CP, "tlc2.TLC", "-workers", "8", "-metadir", os.path.join(ctx.scratch, "specmut-meta"),
                                 "-cleanup", "-noGenerateSpecTE", "-config", cfg, mod], cwd=d, stdout=subprocess.PIPE, stderr=subprocess.STDOUT, text=True, timeout=900)
             refuted = "is violated" in r.stdout or "Error:" in r.stdout
